@@ -21,7 +21,7 @@ VERIF = scratch.VERIF
 #   where = "<crate dir>"            : the witness becomes the integration test <crate dir>/tests/verif_<file> (public API only)
 #   where = "append:<repo rel path>" : the witness (a #[cfg(test)] module) is appended to that source file (private access)
 WITNESS = [
-    (r"Move::set_previous_halfmove|Bitboard::unmake|Bitboard::make_move", "board", "inkayaku_board", "c03_make_unmake.rs", "witness_"),
+    (r"board_make::(Move::|Bitboard::)", "board", "inkayaku_board", "c03_make_unmake.rs", "witness_"),
     (r"Bitboard::(find_uci|make_uci|make_all_uci)", "board", "inkayaku_board", "c13_rejected_move.rs", "witness_find_uci|witness_make_uci"),
     (r"uci_to_pgn", "board", "inkayaku_board", "c13_rejected_move.rs", "witness_uci_to_pgn"),
     (r"search_negamax_slice|search_quiescence_slice", "engine_core", "inkayaku_engine_core", "c09_interrupted_search.rs", "witness_c09"),
